@@ -2,7 +2,8 @@
 M8b — the read-side inlining pipeline of `GetActionResult` (server/grpc_ac.go `maybeInline`):
 stdout, stderr and then the output files in message order are visited with a running total
 `inlinedSoFar`; a field is inlined when the request asks for it and the budget `maxInlineSize` allows,
-otherwise inline contents are moved to the CAS under their digest.
+otherwise inline contents are moved to the CAS under their digest — unless the digest stored next to
+them is not theirs, in which case they stay inline.
 
 Contents are abstract (`α` with a length and a hash), the CAS is a finite map from (hash, size).
 -/
@@ -47,6 +48,12 @@ def fits {α} (o : Ops α) (max : Int) (f : Field α) (sofar : Int) : Bool :=
      | some d => !decide (sofar + d.size > max)
      | none => true)
 
+/-- the digest stored next to inline bytes `a` is not the digest of `a` -/
+def foreign {α} (o : Ops α) (f : Field α) (a : α) : Bool :=
+  match f.dig with
+  | some d' => decide (d' ≠ trueDigest o a)
+  | none => false
+
 /-- `maybeInline`; `putOk` = the de-inlining `Put` succeeds (it fails when the stored digest does
 not match the bytes, or for lack of space); `none` = the blob to inline cannot be read (the whole
 GetActionResult fails) -/
@@ -56,8 +63,10 @@ def maybeInline {α} (o : Ops α) (max : Int) (putOk : Bool) (want : Bool) (f : 
     match f.raw with
     | none => some ⟨f, sofar, cas⟩
     | some a =>
-      let d := f.dig.getD (trueDigest o a)
-      if (cas.get d).isSome then some ⟨{ raw := none, dig := some d }, sofar, cas⟩
+      let d := trueDigest o a
+      -- inline bytes next to a digest that is not theirs stay inline (and count)
+      if foreign o f a then some ⟨f, sofar + o.len a, cas⟩
+      else if (cas.get d).isSome then some ⟨{ raw := none, dig := some d }, sofar, cas⟩
       else if putOk then some ⟨{ raw := none, dig := some d }, sofar, cas ++ [(d, a)]⟩
       else some ⟨{ raw := some a, dig := some d }, sofar + o.len a, cas⟩
   else
